@@ -3,7 +3,7 @@ import re
 
 from .lib import PLUMBING, callee_allow, callers, closure_args_of_call, operand_local
 from .lib_c01 import (PRE_FIX_F3_EDITS, VALUE_PRESERVING, Renamed, access_path, bool_switch_of_call, conflict_loop, const_reach, enum_switches,
-                      norm_path, resolve_path, sources, version_param)
+                      norm_path, outermost_fn, resolve_path, sources, version_param)
 from .lib_c01 import edge_is_rejecting as edge_rejects
 
 LEVEL = "other"
@@ -539,22 +539,6 @@ SELECT_CHAIN = [r"iter::IntoIterator::into_iter$", r"slice::<impl \[T\]>::iter$"
                 r"iter::DoubleEndedIterator::(next_back|rfind)$"]
 
 
-def _outermost(ds, f):
-    """The named function a closure (possibly of a helper that was inlined, or a synthetic fn-item closure) is written in."""
-    cur = f
-    for _ in range(8):
-        if cur.raw["kind"] != "Closure":
-            return cur
-        par = ds.F.get(cur.raw.get("parent"))
-        if par is None:
-            hosts = [g for g in ds.F.values() if cur.raw.get("parent") in g.raw.get("inlined", [])]
-            if len(hosts) != 1:
-                return cur
-            par = hosts[0]
-        cur = par
-    return cur
-
-
 def _enclosing_adaptor_calls(ds, h):
     """Calls (in the enclosing function) that take closure h as an argument: [(fn, bb, term)]."""
     out = []
@@ -642,7 +626,7 @@ def r5_one_version_predicate(ctx):
                                                       any("ApiEndpointVersions" in f.local_ty(operand_local(a) or 0) for a in t["args"] if operand_local(a) is not None)):
                 op = c.split("::")[-1]
             if op:
-                seen.setdefault((_outermost(ctx.ds, f).id, op), []).append((f, bb, t))
+                seen.setdefault((outermost_fn(ctx.ds, f).id, op), []).append((f, bb, t))
     for key, sites in sorted(seen.items()):
         ctx.check(R, "version-op:%s:%s" % key, key in VERSION_OPS, "%s — %s" % (key, VERSION_OPS.get(key, "NOT in the reviewed table: a second way of relating handlers and versions in the router")),
                   (sites[0][0], sites[0][1]), nontrivial=False)
